@@ -103,7 +103,7 @@ std::string gen_string_value(Rng &r, bool hostile, int maxlen)
 		else if (k < 8)
 			s += meta[r.below(sizeof(meta) - 1)];
 		else if (k < 9)
-			s += (char)r.range(1, 127); // ASCII incl. control characters
+			s += (char)r.range(1, 255); // any byte but NUL: control characters, Latin-1 / UTF-8 bytes
 		else
 			s += (char)r.range('0', '9');
 	}
@@ -471,8 +471,8 @@ static void emit_value(Builder &b, const json &o, bool last = false)
 	if (pcb || t == "ptr") {
 		// any token: the callback decides
 		std::string v = gen_string_value(r, false, 6);
-		if (v.empty())
-			v = "v";
+		if (v.empty() && !r.chance(1, 3))
+			v = "v"; // sometimes the empty token "" reaches the callback
 		b.tok(encode_string(r, v, r.chance(1, 2) ? 0 : 2, b.g.multiline), "v", "any");
 		b.set_dec(v);
 	} else if (t == "int") {
@@ -682,7 +682,9 @@ std::vector<OptRef> collect_opts(Rng &r, const json &opts)
 	return out;
 }
 
-static const char *TITLES[] = {"t0", "t1", "t2", "T0", "a b", "q'x", ""};
+// the first NT titles are used for add / remove: one contains '=', "t1" is a proper prefix of "t10" and "t" of both
+static const char *TITLES[] = {"t10", "t1", "a=b", "t", "T0", "a b", "q'x", ""};
+static const int NT = 4;
 
 static json typed_value(Rng &r, const std::string &t, bool hostile)
 {
@@ -761,22 +763,22 @@ json gen_api_step(Rng &r, int cl, int ctx, const std::vector<OptRef> &refs, cons
 		unsigned k = (unsigned)r.below(6);
 		if (k < 2 && (fl & F_TITLE) && (fl & F_MULTI)) {
 			s["op"] = "addtsec";
-			s["title"] = TITLES[r.below(4)];
+			s["title"] = TITLES[r.below(NT)];
 		} else if (k == 2) {
 			s["op"] = "rmnsec";
 			s["idx"] = (unsigned)r.below(4);
 		} else if (k == 3 && (fl & F_TITLE)) {
 			s["op"] = "rmtsec";
-			s["title"] = TITLES[r.below(4)];
+			s["title"] = TITLES[r.below(NT)];
 		} else if (k == 4) {
 			s["op"] = "rmsec";
 			std::string p = ref.decl["n"].get<std::string>();
 			if (fl & F_MULTI)
-				p += "=" + ((fl & F_TITLE) ? std::string(TITLES[r.below(4)]) : std::to_string(r.below(3)));
+				p += "=" + ((fl & F_TITLE) ? std::string(TITLES[r.below(NT)]) : std::to_string(r.below(3)));
 			s["name"] = p;
 		} else if ((fl & F_TITLE) && (fl & F_MULTI)) {
 			s["op"] = "addtsec";
-			s["title"] = TITLES[r.below(4)];
+			s["title"] = TITLES[r.below(NT)];
 		} else {
 			s["op"] = "getters";
 		}
